@@ -252,26 +252,33 @@ example : (Wire.whole [[1, 2], [3]]).Ok (fun b => b) (fun _ => List.replicate 16
 
 /-! ### Tie to the source: the whole-file path -/
 
-/-- **`sendFile`'s read loop sends the whole file, whatever the file system's reads look like** (translated from
-/repo on every run; `f.Read` delivers between 1 and `min(len buf, rest)` bytes per call, an arbitrary schedule of
-short reads is a parameter): literal tokens of 1 … 256 KiB whose data concatenate to exactly the file, each preceded
-by its length, then the end-of-data token; at most `len(file)+1` passes. This is the hypothesis `Wire.whole cs`
-with `cs.flatten = file` of `sync_correct`, discharged for the source's own loop. -/
-theorem source_whole_file_path (file : List UInt8) (sched : List Nat) :
+/-- **`sendFile`'s read loop sends the whole file, whatever the reader's reads look like** (translated from
+/repo on every run; `f.Read` delivers between 1 and `min(len buf, rest)` bytes per call — an arbitrary schedule of
+short reads is a parameter — and reports the end of the file either together with the last bytes (`eager`, as
+`io.Reader` allows and an `fs.FS` module may do) or by the next call): literal tokens of 1 … 256 KiB whose data
+concatenate to exactly the file, each preceded by its length, then the end-of-data token; at most `len(file)+1`
+passes. This is the hypothesis `Wire.whole cs` with `cs.flatten = file` of `sync_correct`, discharged for the source's
+own loop. Before the repair of D50 the statement was false for `eager = true`: the bytes that arrived with `io.EOF`
+were dropped and the transfer failed with "file corruption". -/
+theorem source_whole_file_path (file : List UInt8) (sched : List Nat) (eager : Bool) :
     ∃ chunks, (∀ c ∈ chunks, 0 < c.length ∧ c.length ≤ 262144) ∧ chunks.flatten = file ∧
-      Gen.Pure.sendFileLoop file sched [] = .ok (SendFile.frames chunks ++ [Go.Out.i32 0], []) :=
-  SendFile.sendFileLoop_sends_all file sched
+      Gen.Pure.sendFileLoop file sched eager [] = .ok (SendFile.frames chunks ++ [Go.Out.i32 0], []) :=
+  SendFile.sendFileLoop_sends_all file sched eager
 
 /-- **and the receiver's own loop rebuilds exactly that file from those bytes** (no basis file, any validated
 header, anything may follow on the wire) -/
-theorem source_whole_file_end_to_end (file : List UInt8) (sched : List Nat) (h : PureTie.Head32) (hok : h.ok) (cs : Nat)
+theorem source_whole_file_end_to_end (file : List UInt8) (sched : List Nat) (eager : Bool) (h : PureTie.Head32) (hok : h.ok) (cs : Nat)
     (tail : List UInt8) :
-    ∃ out, Gen.Pure.sendFileLoop file sched [] = .ok (out, []) ∧
+    ∃ out, Gen.Pure.sendFileLoop file sched eager [] = .ok (out, []) ∧
       Gen.Pure.recvLoop (SendFile.wireOf out ++ tail) [] false h.count h.bl h.rem [] = .ok (file, tail) :=
-  SendFile.whole_file_end_to_end file sched h hok cs tail
+  SendFile.whole_file_end_to_end file sched eager h hok cs tail
 
-/-- non-vacuity: a five-byte file read as 2 + 1 + 2 bytes -/
-example : Gen.Pure.sendFileLoop [1, 2, 3, 4, 5] [2, 1] [] =
+/-- non-vacuity: a five-byte file read as 2 + 1 + 2 bytes, the end reported by a further call or with the last bytes -/
+example : Gen.Pure.sendFileLoop [1, 2, 3, 4, 5] [2, 1] false [] =
+    .ok ([.i32 2, .bytes [1, 2], .i32 1, .bytes [3], .i32 2, .bytes [4, 5], .i32 0], []) := by
+  decide +kernel
+
+example : Gen.Pure.sendFileLoop [1, 2, 3, 4, 5] [2, 1] true [] =
     .ok ([.i32 2, .bytes [1, 2], .i32 1, .bytes [3], .i32 2, .bytes [4, 5], .i32 0], []) := by
   decide +kernel
 
